@@ -271,23 +271,33 @@ class PySpec:
         raise ValueError(k)
 
 
-def gen_case(rng, maxlen, stay_in_domain=0.85):
-    ncols = rng.choice([1, 2, 2, 3, 3, 4])
-    cols = rng.sample(NAMES[:6], ncols)
-    types = [rng.choice("iirs") for _ in cols]
-    if rng.random() < 0.3:
-        types = ["i"] * ncols
-    nrows = rng.choice([0, 0, 1, 2, 3, 4])
-    rows = [[gen_cell(rng, t) for t in types] for _ in range(nrows)]
-    spec = PySpec(cols, rows)
-    tys = dict(zip(cols, types))
-    ops = []
-    n = rng.randint(1, maxlen)
-    want_index = rng.random() < 0.7
-    while len(ops) < n:
+class TableGen:
+    """generator of operations on ONE table, driven by the python reference"""
+
+    def __init__(self, rng, stay_in_domain=0.85):
+        self.rng, self.stay = rng, stay_in_domain
+        ncols = rng.choice([1, 2, 2, 3, 3, 4])
+        self.cols0 = rng.sample(NAMES[:6], ncols)
+        self.types0 = [rng.choice("iirs") for _ in self.cols0]
+        if rng.random() < 0.3:
+            self.types0 = ["i"] * ncols
+        nrows = rng.choice([0, 0, 1, 2, 3, 4])
+        self.rows0 = [[gen_cell(rng, t) for t in self.types0] for _ in range(nrows)]
+        self.spec = PySpec(self.cols0, self.rows0)
+        self.tys = dict(zip(self.cols0, self.types0))
+        self.want_index = rng.random() < 0.7
+
+    def table(self):
+        return {"cols": self.cols0, "types": self.types0, "rows": self.rows0}
+
+    def next_op(self):
+        """one operation (already applied to the reference), or None when the draw is rejected"""
+        rng, spec, tys = self.rng, self.spec, self.tys
         r = rng.random()
         cur = spec.cols
-        def newrow(width=None):
+        ty = None
+
+        def newrow():
             row = [gen_cell(rng, tys[c]) for c in cur]
             # re-use an existing key often
             if spec.rows and rng.random() < 0.45:
@@ -317,8 +327,8 @@ def gen_case(rng, maxlen, stay_in_domain=0.85):
         elif r < 0.68:
             op = ("schema",)
         elif r < 0.78:
-            if not want_index and rng.random() < 0.7:
-                continue
+            if not self.want_index and rng.random() < 0.7:
+                return None
             k = 1 if (len(cur) == 1 or rng.random() < 0.6) else 2
             cs = rng.sample(cur, k)
             if rng.random() < 0.04:
@@ -334,7 +344,7 @@ def gen_case(rng, maxlen, stay_in_domain=0.85):
             ln = len(spec.rows) if (rng.random() < 0.9 or not spec.rows) else len(spec.rows) + rng.choice([-1, 1])
             op = ("set", nm, [gen_cell(rng, ty) for _ in range(ln)])
             if len(cur) >= 6 and nm not in cur:
-                continue
+                return None
         else:
             q = rng.random()
             if q < 0.45:
@@ -347,13 +357,44 @@ def gen_case(rng, maxlen, stay_in_domain=0.85):
                 if rng.random() < 0.05:
                     cs = cs + ["nope"]
                 op = ("qcols", cs)
-        if not spec.dom(op) and rng.random() < stay_in_domain:
-            continue
+        if not spec.dom(op) and rng.random() < self.stay:
+            return None
         res = spec.step(op)
         if op[0] == "set" and res == ["unit"]:
             tys.setdefault(op[1], ty)
-        ops.append(op)
-    return {"cols": cols, "types": types, "rows": rows, "ops": ops}
+        return op
+
+
+def gen_case(rng, maxlen, stay_in_domain=0.85):
+    g = TableGen(rng, stay_in_domain)
+    ops = []
+    n = rng.randint(1, maxlen)
+    while len(ops) < n:
+        op = g.next_op()
+        if op is not None:
+            ops.append(op)
+    return dict(g.table(), ops=ops)
+
+
+def gen_multi(rng, maxlen, stay_in_domain=0.9):
+    """2-3 tables in ONE database; operations interleaved over the tables, .schema(db), queries on an unknown table"""
+    k = rng.choice([2, 2, 3])
+    gens = [TableGen(rng, stay_in_domain) for _ in range(k)]
+    ops = []
+    n = rng.randint(2, maxlen)
+    while len(ops) < n:
+        r = rng.random()
+        if r < 0.04:
+            ops.append(["dschema"])
+            continue
+        if r < 0.07:
+            ops.append([7, ("qall",) if rng.random() < 0.5 else ("qcount",)])      # no table T7 in the database
+            continue
+        i = rng.randrange(k)
+        op = gens[i].next_op()
+        if op is not None:
+            ops.append([i, op])
+    return {"tables": [g.table() for g in gens], "ops": ops}
 
 
 def fixed_cases():
@@ -368,6 +409,11 @@ def fixed_cases():
     out.append(dict(ab, ops=[("ins", [n(4), n(5)]), ("set", "c", [n(1), n(2), n(3), n(4)]), ("qall",), ("ins", [n(5), n(5), n(5)]), ("count",)], tag="set-after-insert"))
     out.append(dict(ab, ops=[("index", ["a"]), ("ins", [n(0), n(5)]), ("read", "a"), ("read", "b")], tag="indexed-read-after-insert"))
     out.append(dict(ab, ops=[("ins", [n(2), n(3)]), ("index", ["a", "b"]), ("rindex",), ("qall",)], tag="index-drops-equal-rows"))
+    # two tables in one database: buffered inserts into BOTH, then a query on one of them, then reads of the other
+    g = {"cols": ["c"], "types": ["i"], "rows": [[n(3)], [n(4)]]}
+    out.append({"tables": [dict(ab), g], "tag": "two-tables",
+                "ops": [[0, ("ins", [n(4), n(5)])], [1, ("ins", [n(5)])], [1, ("index", ["c"])], [1, ("ins", [n(0)])], [0, ("qall",)],
+                        ["dschema"], [1, ("read", "c")], [0, ("set", "z", [n(1), n(1), n(1), n(1)])], ["dschema"], [1, ("qcount",)], [7, ("qall",)], [0, ("count",)]]})
     return out
 
 
@@ -405,6 +451,13 @@ def sx_case(case, flags="impl"):
                [sx_op(o) for o in case["ops"]]])
 
 
+def sx_multi(case, flags="impl"):
+    f = ["impl"] if flags == "impl" else ["flags"] + [int(b) for b in flags]
+    tbls = [[[sx_name(c) for c in t["cols"]], [[sx_cell(c) for c in r] for r in t["rows"]]] for t in case["tables"]]
+    ops = [["dschema"] if o[0] == "dschema" else [o[0], sx_op(o[1])] for o in case["ops"]]
+    return sx(["runm", f, tbls, ops])
+
+
 def un_cell(x):
     return ("n", x[1]) if x[0] == "n" else ("s", "".join(chr(c) for c in x[1:]))
 
@@ -424,6 +477,8 @@ def un_obs(x):
         return ["rows"] + [[un_cell(c) for c in r] for r in x[1:]]
     if t == "names":
         return ["names"] + ["".join(chr(c) for c in n) for n in x[1:]]
+    if t == "schemas":
+        return ["schemas"] + [["".join(chr(c) for c in n) for n in ns] for ns in x[1:]]
     return ["?", x]
 
 
@@ -470,6 +525,7 @@ class Impl:
         self.k('T::.table([["a" []]])')
         self.k('q,"T",,T')
         self.k('db::.db(q)')
+        self.multi = set()
 
     def canon_cell(self, v):
         import numpy as np
@@ -497,87 +553,111 @@ class Impl:
         tys = dict(zip(case["cols"], case["types"]))
         return tys
 
-    def run(self, case):
+    def make_table(self, name, tbl, qname):
+        k = self.k
+        parts = []
+        for i, (c, t) in enumerate(zip(tbl["cols"], tbl["types"])):
+            vals = " ".join(klong_val(r[i], t) for r in tbl["rows"])
+            parts.append('["%s" [%s]]' % (c, vals))
+        k(name + "::.table([" + " ".join(parts) + "])")
+        k('%s,"%s",,%s' % (qname, name, name))
+        # per-column literal style (real columns are written with a decimal point), current column list
+        return {"style": dict(zip(tbl["cols"], tbl["types"])), "cur": list(tbl["cols"])}
+
+    def do_op(self, T, st, op, dbname, qtable=None):
+        """one operation on the Klong table named T through Klong source text -> canonical observation"""
         import numpy as np
         from klongpy.db.sys_fn_db import Table
         from klongpy.core import KLONG_UNDEFINED
         k = self.k
-        cols, types = case["cols"], case["types"]
-        parts = []
-        for i, (c, t) in enumerate(zip(cols, types)):
-            vals = " ".join(klong_val(r[i], t) for r in case["rows"])
-            parts.append('["%s" [%s]]' % (c, vals))
-        k("T::.table([" + " ".join(parts) + "])")
-        k('q,"T",,T')
-        # per-column literal style (real columns are written with a decimal point)
-        style = dict(zip(cols, types))
-        cur = list(cols)
+        style, cur = st["style"], st["cur"]
+        kind = op[0]
+        try:
+            if kind == "ins":
+                tys = [style.get(c, "i") for c in cur] + ["i"] * len(op[1])
+                r = k(".insert(%s;%s)" % (T, klong_row(op[1], tys)))
+                return ["unit"] if isinstance(r, Table) else ["other", type(r).__name__]
+            if kind == "insb":
+                tys = [style.get(c, "i") for c in cur] + ["i"] * 8
+                r = k(".insert(%s;[%s])" % (T, " ".join(klong_row(x, tys) for x in op[1])))
+                return ["unit"] if isinstance(r, Table) else ["other", type(r).__name__]
+            if kind == "read":
+                r = k('%s?"%s"' % (T, op[1]))
+                return ["undef"] if r is KLONG_UNDEFINED else ["cells"] + self.canon_seq(r)
+            if kind == "count":
+                return ["int", int(k("#" + T))]
+            if kind == "schema":
+                return ["names"] + [str(x) for x in k(".schema(%s)" % T)]
+            if kind == "index":
+                r = k(".index(%s;[%s])" % (T, " ".join('"%s"' % c for c in op[1])))
+                return ["names"] + [str(x) for x in r]
+            if kind == "rindex":
+                return ["int", int(k(".rindex(%s)" % T))]
+            if kind == "set":
+                ty = style.get(op[1]) or ("r" if any(c[0] == "n" and c[1] % 4 for c in op[2]) else "i")
+                r = k('%s,"%s",,[%s]' % (T, op[1], " ".join(klong_val(c, ty) for c in op[2])))
+                if isinstance(r, Table):
+                    if op[1] not in cur:
+                        cur.append(op[1])
+                        style[op[1]] = ty
+                    return ["unit"]
+                return ["other", type(r).__name__]
+            qt = qtable or T
+            if kind == "qall":
+                sql = "select * from " + qt
+            elif kind == "qcount":
+                sql = "select count(*) from " + qt
+            else:
+                sql = "select %s from %s" % (",".join(op[1]), qt)
+            r = np.asarray(k('%s("%s")' % (dbname, sql)))
+            if kind == "qcount":
+                return ["int", int(r)]
+            if r.ndim == 0:
+                return ["cell", self.canon_cell(r.item() if r.dtype != object else r[()])]
+            if r.size == 0:
+                return ["cells"]
+            if r.ndim == 1:
+                return ["cells"] + self.canon_seq(r)
+            return ["rows"] + [self.canon_seq(x) for x in r]
+        except Exception as e:  # noqa: any failure is the observation "error"
+            self.last_error = "%s: %s" % (type(e).__name__, str(e)[:200])
+            return ["err"]
+
+    def run(self, case):
+        st = self.make_table("T", case, "q")
+        return norm([self.do_op("T", st, op, "db") for op in case["ops"]])
+
+    def run_multi(self, case):
+        """several tables T0.. in ONE database (one Klong dictionary and one .db per table count, re-used)"""
+        n = len(case["tables"])
+        q, dbn = "q%d" % n, "db%d" % n
+        if n not in self.multi:
+            self.k(q + ":::{}")
+            for i in range(n):
+                self.k('T%d::.table([["a" []]])' % i)
+                self.k('%s,"T%d",,T%d' % (q, i, i))
+            self.k("%s::.db(%s)" % (dbn, q))
+            self.multi.add(n)
+        sts = [self.make_table("T%d" % i, t, q) for i, t in enumerate(case["tables"])]
         out = []
-        for op in case["ops"]:
-            kind = op[0]
-            try:
-                if kind == "ins":
-                    tys = [style.get(c, "i") for c in cur] + ["i"] * len(op[1])
-                    r = k(".insert(T;%s)" % klong_row(op[1], tys))
-                    out.append(["unit"] if isinstance(r, Table) else ["other", type(r).__name__])
-                elif kind == "insb":
-                    tys = [style.get(c, "i") for c in cur] + ["i"] * 8
-                    r = k(".insert(T;[%s])" % " ".join(klong_row(x, tys) for x in op[1]))
-                    out.append(["unit"] if isinstance(r, Table) else ["other", type(r).__name__])
-                elif kind == "read":
-                    r = k('T?"%s"' % op[1])
-                    out.append(["undef"] if r is KLONG_UNDEFINED else ["cells"] + self.canon_seq(r))
-                elif kind == "count":
-                    r = k("#T")
-                    out.append(["int", int(r)])
-                elif kind == "schema":
-                    r = k(".schema(T)")
-                    out.append(["names"] + [str(x) for x in r])
-                elif kind == "index":
-                    r = k(".index(T;[%s])" % " ".join('"%s"' % c for c in op[1]))
-                    out.append(["names"] + [str(x) for x in r])
-                elif kind == "rindex":
-                    r = k(".rindex(T)")
-                    out.append(["int", int(r)])
-                elif kind == "set":
-                    ty = style.get(op[1]) or ("r" if any(c[0] == "n" and c[1] % 4 for c in op[2]) else "i")
-                    r = k('T,"%s",,[%s]' % (op[1], " ".join(klong_val(c, ty) for c in op[2])))
-                    if isinstance(r, Table):
-                        out.append(["unit"])
-                        if op[1] not in cur:
-                            cur.append(op[1])
-                            style[op[1]] = ty
-                    else:
-                        out.append(["other", type(r).__name__])
-                else:
-                    if kind == "qall":
-                        sql = "select * from T"
-                    elif kind == "qcount":
-                        sql = "select count(*) from T"
-                    else:
-                        sql = "select %s from T" % ",".join(op[1])
-                    r = k('db("%s")' % sql)
-                    r = np.asarray(r)
-                    if kind == "qcount":
-                        out.append(["int", int(r)])
-                    elif r.ndim == 0:
-                        out.append(["cell", self.canon_cell(r.item() if r.dtype != object else r[()])])
-                    elif r.size == 0:
-                        out.append(["cells"])
-                    elif r.ndim == 1:
-                        out.append(["cells"] + self.canon_seq(r))
-                    else:
-                        out.append(["rows"] + [self.canon_seq(x) for x in r])
-            except Exception as e:  # noqa: any failure is the observation "error"
-                out.append(["err"])
-                self.last_error = "%s: %s" % (type(e).__name__, str(e)[:200])
+        for o in case["ops"]:
+            if o[0] == "dschema":
+                try:
+                    d = self.k(".schema(%s)" % dbn)
+                    out.append(["schemas"] + [[str(x) for x in d["T%d" % i]] for i in range(n)] if len(d) == n else ["other", sorted(d)])
+                except Exception as e:  # noqa
+                    out.append(["err"])
+            elif o[0] < n:
+                out.append(self.do_op("T%d" % o[0], sts[o[0]], o[1], dbn))
+            else:
+                out.append(self.do_op("T0", sts[0], o[1], dbn, qtable="T%d" % o[0]))
         return norm(out)
 
 
 # ---------------------------------------------------------------- comparison
 def evaluate(chk, impl, cases, flags="impl"):
     """returns per case dict(impl, model, spec, dom, prop_fail index|None, corr_fail index|None)"""
-    res = chk.run_model([sx_case(c, flags) for c in cases])
+    res = chk.run_model([sx_multi(c, flags) if "tables" in c else sx_case(c, flags) for c in cases])
     out = []
     for case, r in zip(cases, res):
         if r[0] != "ok":
@@ -586,7 +666,7 @@ def evaluate(chk, impl, cases, flags="impl"):
         sobs = norm([un_obs(x) for x in r[2][1:]])
         dom = r[3][1]
         wf = r[4][1]
-        iobs = impl.run(case)
+        iobs = impl.run_multi(case) if "tables" in case else impl.run(case)
         prop = corr = None
         for i in range(len(case["ops"])):
             if i < dom and wf:
@@ -602,6 +682,19 @@ def evaluate(chk, impl, cases, flags="impl"):
 
 
 def pyspec_obs(case):
+    if "tables" in case:
+        specs = [PySpec(t["cols"], t["rows"]) for t in case["tables"]]
+        obs, dom = [], None
+        for i, o in enumerate(case["ops"]):
+            if o[0] == "dschema":
+                obs.append(["schemas"] + [list(s.cols) for s in specs])
+            elif o[0] >= len(specs):
+                obs.append(["err"])
+            else:
+                if dom is None and not specs[o[0]].dom(o[1]):
+                    dom = i
+                obs.append(specs[o[0]].step(o[1]))
+        return norm(obs), (len(case["ops"]) if dom is None else dom)
     s = PySpec(case["cols"], case["rows"])
     obs, dom = [], None
     for i, op in enumerate(case["ops"]):
@@ -645,24 +738,36 @@ def describe(case):
             return 'db("select %s from T")' % ",".join(o[1])
         return {"count": "#T", "schema": ".schema(T)", "rindex": ".rindex(T)", "qall": 'db("select * from T")',
                 "qcount": 'db("select count(*) from T")'}[o[0]]
+    if "tables" in case:
+        return {"tables": [{"name": "T%d" % i, "columns": t["cols"], "initial_rows": [[cell(c) for c in r] for r in t["rows"]]}
+                           for i, t in enumerate(case["tables"])],
+                "ops": [".schema(db)" if o[0] == "dschema" else op(o[1]).replace("T", "T%d" % o[0]) for o in case["ops"]]}
     return {"columns": case["cols"], "initial_rows": [[cell(c) for c in r] for r in case["rows"]],
             "ops": [op(o) for o in case["ops"]]}
 
 
 def replay_body(case, r, i, what):
-    return {"kind": what, "case": {"cols": case["cols"], "types": case["types"], "rows": case["rows"], "ops": case["ops"]},
+    return {"kind": what, "case": {k: case[k] for k in ("tables", "cols", "types", "rows", "ops") if k in case},
             "readable": describe(case), "first_bad_op": i,
             "expected_spec": r["spec"][i] if i is not None else None,
             "actual_impl": r["impl"][i] if i is not None else None,
             "model": r["model"][i] if i is not None else None, "in_domain_prefix": r["dom"]}
 
 
+def op_kinds(case):
+    if "tables" in case:
+        return ["dschema" if o[0] == "dschema" else "%d:%s" % (o[0], o[1][0]) for o in case["ops"]]
+    return [o[0] for o in case["ops"]]
+
+
 def op_shape(case):
+    if "tables" in case:
+        return (tuple(tuple(t["types"]) for t in case["tables"]), tuple(op_kinds(case)))
     return (tuple(case["types"]), len(case["rows"]), tuple(o[0] for o in case["ops"]))
 
 
 def nontrivial(case, r):
-    kinds = [o[0] for o in case["ops"]]
+    kinds = [k.split(":")[-1] for k in op_kinds(case)]
     return any(k in ("ins", "insb") for k in kinds) and any(k in ("read", "count", "qall", "qcols", "qcount") for k in kinds[1:])
 
 
@@ -679,7 +784,8 @@ def run(tier, replay=None):
 
     maxlen = 10 if tier == "quick" else 18
     count = 5000 if tier == "quick" else 40000
-    cases = fixed_cases() + [gen_case(rng, maxlen) for _ in range(count)]
+    nmulti = 1200 if tier == "quick" else 8000
+    cases = fixed_cases() + [gen_case(rng, maxlen) for _ in range(count)] + [gen_multi(rng, maxlen + 4) for _ in range(nmulti)]
 
     def sweep(cases, label):
         first_prop = first_corr = None
@@ -703,14 +809,17 @@ def run(tier, replay=None):
                 first_prop = (case, r)
             if r["corr"] is not None and first_corr is None:
                 first_corr = (case, r)
-            if any(k[0] == "index" for k in case["ops"]) and r["prop"] is None:
+            if "tables" in case:
+                chk.count("multi_table_sequences")
+            if any(k.endswith("index") for k in op_kinds(case)) and r["prop"] is None:
                 chk.sample({"case": describe(case), "observed": r["impl"][-1]}, limit=5)
         return first_prop, first_corr
 
     first_prop, first_corr = sweep(cases, "main")
     if first_prop is None and (first_corr is not None or not proof["ok"]):
         # something no longer checks: look harder for an input on which the PROPERTY fails
-        extra = [gen_case(random.Random(chk.seed + 1000 + j), 18, stay_in_domain=1.0) for j in range(6000 if tier == "quick" else 20000)]
+        extra = [gen_case(random.Random(chk.seed + 1000 + j), 18, stay_in_domain=1.0) for j in range(6000 if tier == "quick" else 20000)] + \
+                [gen_multi(random.Random(chk.seed + 500000 + j), 18, stay_in_domain=1.0) for j in range(1500 if tier == "quick" else 6000)]
         fp, fc = sweep(extra, "search")
         first_prop = fp
         first_corr = first_corr or fc
@@ -743,7 +852,7 @@ def run(tier, replay=None):
                           {"broken_obligation": proof["broken"], "coq_error": proof["error"], "generated": chk.generated_text}, no_input=True)
     return chk.finish(
         rule="seeded random operation sequences (length <= %d; create from 1-4 int/real/string columns with 0-4 rows; insert, batch insert incl. a key twice in one batch, "
-             "t?col, #t, .schema, .index on 1-2 columns, .rindex, added/overwritten column, db select */projection/count) through Klong source text, plus 7 fixed histories; "
+             "t?col, #t, .schema, .index on 1-2 columns, .rindex, added/overwritten column, db select */projection/count) through Klong source text, plus 8 fixed histories, plus sequences over 2-3 tables in ONE database (interleaved operations, .schema(db), query on a missing table); "
              "each compared op by op with the extracted spec (inside the property's domain) and the extracted model. distinct = distinct (column types, initial row count, op-kind sequence); "
              "non-trivial = at least one insert followed by a read" % maxlen,
         trusted_base=TRUSTED, assumptions=ASSUME)
@@ -756,7 +865,11 @@ def replay(path):
     if not case:
         print(json.dumps(body, indent=1))
         return 0
-    case["rows"] = [[tuple(c) for c in r] for r in case["rows"]]
+    if "tables" in case:
+        for t in case["tables"]:
+            t["rows"] = [[tuple(c) for c in r] for r in t["rows"]]
+    else:
+        case["rows"] = [[tuple(c) for c in r] for r in case["rows"]]
     def fix(o):
         if o[0] == "ins":
             return ("ins", [tuple(c) for c in o[1]])
@@ -765,7 +878,7 @@ def replay(path):
         if o[0] == "set":
             return ("set", o[1], [tuple(c) for c in o[2]])
         return tuple(o)
-    case["ops"] = [fix(o) for o in case["ops"]]
+    case["ops"] = [(o if o[0] == "dschema" else [o[0], fix(o[1])]) if "tables" in case else fix(o) for o in case["ops"]]
     chk = Check("C19", "quick")
     chk.generate(generate())
     chk.build_model()
